@@ -57,6 +57,50 @@ impl Ctx {
     }
 }
 
+/// A section that runs a ProgCase-based check after a generated history (see `exec::Hist`): the
+/// display was built with another orientation, drew, and was re-oriented to the orientation of the case.
+pub fn history_section(
+    rep: &mut Report,
+    ctx: &Ctx,
+    seed: u64,
+    cases: u64,
+    strat: impl Fn() -> proptest::strategy::BoxedStrategy<crate::exec::ProgCase> + Sync,
+    check: impl Fn(&crate::exec::ProgCase, &mut crate::runner::CaseInfo) -> Result<(), String> + Sync,
+    sig: impl Fn(&crate::exec::ProgCase, &str) -> String + Sync,
+) {
+    let mut sec = crate::runner::Section::new(
+        &format!("after-history[{}]", ctx.variant),
+        "the same generated cases and oracle, on a display with a history: built with another orientation, 0..3 in-bounds drawing calls (one third of the time including a copy of the first judged call), 0..2 intermediate set_orientation calls with drawing in between, then set_orientation to the orientation of the case; the simulated frame memory is wiped before the judged calls; non-trivial as for the plain section",
+    );
+    crate::runner::run_generated(
+        &mut sec,
+        seed,
+        cases,
+        ctx.workers,
+        || crate::gen::history(strat()),
+        |c, info| {
+            let r = crate::exec::with_history(&c.hist, || check(&c.prog, info));
+            if c.hist.first.vertical() != c.prog.cfg.orient.vertical() {
+                info.label("history:axes-exchanged");
+            }
+            if !c.hist.via.is_empty() {
+                info.label("history:several-orientations");
+            }
+            if !c.hist.pre.is_empty() || !c.hist.mid.is_empty() {
+                info.label("history:drew-before");
+            }
+            r
+        },
+        |c, r| format!("hist:{}", sig(&c.prog, r)),
+    );
+    rep.sections.push(sec);
+}
+
+pub fn replay_history(case: &Value, check: impl Fn(&crate::exec::ProgCase, &mut crate::runner::CaseInfo) -> Result<(), String>) -> Result<(), String> {
+    let c = de::<crate::exec::HistCase>(case)?;
+    crate::exec::with_history(&c.hist, || check(&c.prog, &mut crate::runner::CaseInfo::default()))
+}
+
 pub const ALL: &[&str] = &["C01", "C02", "C03", "C04", "C05", "C06", "C07", "C08", "C09", "C10", "C11", "C12", "C13", "C14", "C15", "C16", "C17", "C18", "C19", "C20"];
 
 pub fn run_property(id: &str, ctx: &Ctx) -> Option<Report> {
